@@ -430,12 +430,13 @@ impl IRNode {
             IRNode::Join { output_schema, .. } => output_schema.clone(),
             IRNode::Distinct { input } => input.output_schema(),
             IRNode::Union { inputs } => {
-                // All inputs must have same schema
-                if inputs.is_empty() {
-                    vec![]
-                } else {
-                    inputs[0].output_schema()
-                }
+                // All inputs must have same schema. An input that was reduced to an
+                // empty union carries none, so take the first input that has one.
+                inputs
+                    .iter()
+                    .map(IRNode::output_schema)
+                    .find(|schema| !schema.is_empty())
+                    .unwrap_or_default()
             }
             IRNode::Aggregate { output_schema, .. } => output_schema.clone(),
             IRNode::Antijoin { output_schema, .. } => output_schema.clone(),
